@@ -168,6 +168,16 @@ func runPart2(r *mc.Run, pool *mc.ProcPool, book *rootBook) p2stats {
 				}
 			}
 		}
+		if d == 0 {
+			// chains whose FIRST commits write no state at all (one and two leading empty blocks): the committed root of
+			// the empty state is the reference's empty-set root, and what follows builds on it
+			for _, b := range alpha {
+				for _, m := range []int{mPlain, mRootCommit} {
+					jobs = append(jobs, sjob{Blocks: []block{{Mode: m}, {Ops: b.Ops}}}, sjob{Blocks: []block{{Mode: m}, {Mode: mPlain}, {Ops: b.Ops, Mode: mRootCommit}}})
+					st.ModeJobs += 2
+				}
+			}
+		}
 		st.JobsPerLvl = append(st.JobsPerLvl, len(jobs))
 		results, complete := runJobs(r, pool, book, jobs)
 		if !complete {
